@@ -40,9 +40,17 @@ def main():
         rc1, o1 = sh(f"/venv/bin/python -W ignore {demo}", wt, env, 900)
         meta["demo"] = {"clean_exit": rc0, "changed_exit": rc1, "changed_output_tail": o1.strip().splitlines()[-2:]}
         if not skip_tests:
-            rct, ot = sh("/venv/bin/python -m pytest -q -p no:cacheprovider -n 6 tests 2>&1 | tail -4", wt, env, 2400)
+            rct, ot = sh("/venv/bin/python -m pytest -q -p no:cacheprovider -n 6 tests 2>&1 | tail -15", wt, env, 2400)
             meta["tests_with_change"] = ot.strip().splitlines()[-1] if ot.strip() else ""
             meta["tests_pass"] = (" passed" in ot) and (" failed" not in ot) and (" error" not in ot.lower())
+            if not meta["tests_pass"]:
+                # tests/test_sequence_sampler.py::test_draw_samples is flaky under xdist (matplotlib figure count warning)
+                # and a few sampling tests depend on the random state left by their predecessors: re-run the failed files serially
+                failed = sorted({l.split("::")[0].split()[-1] for l in ot.splitlines() if l.startswith("FAILED ")})
+                if failed and len(failed) <= 3:
+                    rc2, o2 = sh("/venv/bin/python -m pytest -q -p no:cacheprovider " + " ".join(failed) + " 2>&1 | tail -3", wt, env, 2400)
+                    meta["tests_rerun_serial"] = {"files": failed, "result": o2.strip().splitlines()[-1] if o2.strip() else ""}
+                    meta["tests_pass"] = (" passed" in o2) and (" failed" not in o2) and (" error" not in o2.lower())
         caught = {}
         man = json.load(open(os.path.join(VERIF, "MANIFEST.json")))
         env2 = dict(os.environ, PSTATIC_EVIDENCE_DIR=evd)
